@@ -12,11 +12,12 @@ import (
 )
 
 func init() {
-	Explanations["C06"] = "Decides structural necessary conditions of 'the wallet ledger equals the chain's truth across reorgs' in package wallet: (R1) order — the apply step moves existing proofs (UpdateWalletSiacoinElementProofs) before WalletApplyIndex, the revert step calls WalletRevertIndex and then moves proofs on every success path, and UpdateChainState finishes all reverts before the first apply; (R2) exhaustiveness — every type implementing the event-data interface has a case in each type switch over Event.Data (four flow methods and the encoder), every EventType* constant has a case in both decoding switches, both decoders map each constant to the same data type, and every (type constant, data type) pair emitted by the event builder appears in that table; (R3) filter agreement — the apply and revert steps classify siacoin element diffs with the same case set (ephemeral skipped, foreign address skipped, created, spent) and hand created↔removed and spent↔unspent to the store in the corresponding argument positions. NOT decided: equality of the utxo set and events with a linear replay, maturity heights, inflow − outflow = balance."
+	Explanations["C06"] = "Decides structural necessary conditions of 'the wallet ledger equals the chain's truth across reorgs' in package wallet: (R1) order — the apply step moves existing proofs (UpdateWalletSiacoinElementProofs) before WalletApplyIndex, the revert step calls WalletRevertIndex and then moves proofs on every success path, and UpdateChainState finishes all reverts before the first apply; (R2) exhaustiveness — every type implementing the event-data interface has a case in each type switch over Event.Data (four flow methods and the encoder), every EventType* constant has a case in both decoding switches, both decoders map each constant to the same data type, and every (type constant, data type) pair emitted by the event builder appears in that table; (R3) filter agreement — the apply and revert steps classify siacoin element diffs with the same case set (ephemeral skipped, foreign address skipped, created, spent) and hand created↔removed and spent↔unspent to the store in the corresponding argument positions. (R4) in the event builders two tests of different address operands of one loop element against the wallet's address are mutually independent (each reached on both outcomes of the other). NOT decided: equality of the utxo set and events with a linear replay, maturity heights, inflow − outflow = balance."
 
 	register(&Rule{ID: "C06.R1", Prop: "C06", Floor: 4, Doc: "proof-move / index-update order on apply and revert; reverts before applies", Run: c06r1})
 	register(&Rule{ID: "C06.R2", Prop: "C06", Floor: 8, Doc: "event tables are exhaustive and agree (type switches, decoders, emitted pairs)", Run: c06r2})
 	register(&Rule{ID: "C06.R3", Prop: "C06", Floor: 3, Doc: "apply and revert classify element diffs identically and pass them in corresponding positions", Run: c06r3})
+	register(&Rule{ID: "C06.R4", Prop: "C06", Floor: 1, Doc: "payouts of one element to the wallet are tested independently (host and renter output of a v2 contract)", Run: c06r4})
 }
 
 func walletSteps(c *Ctx) (apply, revert *ir.Func) {
@@ -563,4 +564,76 @@ func resultConcreteType(f *ir.Func, call *ast.CallExpr, i int) types.Type {
 		out = t
 	}
 	return out
+}
+
+// c06r4: one element can pay the wallet in more than one way (a v2 contract's
+// host *and* renter output may both carry the wallet's address). In every
+// function of package wallet that is given the wallet's address (helpers expanded), two tests that
+// compare *different* address operands of the same loop element with the
+// wallet's address must be independent: the second is reached whatever the
+// first decided. An `else if` between them drops the second payout's event
+// while its output is still stored, so the ledger no longer sums to the balance.
+func c06r4(c *Ctx) {
+	vs := c.P.Views("wallet", ir.ExpandOpt{Key: "all"})
+	n := 0
+	for _, f := range vs.Roots {
+		g := f.Graph()
+		type test struct {
+			node    *cfgx.Node
+			operand ast.Expr
+			head    *cfgx.Node
+			addr    types.Object
+		}
+		var tests []test
+		for _, m := range g.Nodes {
+			if m.AST == nil || m.Block == nil || m.Block.Cond != m.AST || len(m.Succs) != 2 {
+				continue
+			}
+			be, ok := ast.Unparen(m.AST.(ast.Expr)).(*ast.BinaryExpr)
+			if !ok || (be.Op != token.EQL && be.Op != token.NEQ) {
+				continue
+			}
+			// <element path>.Address (or a derived address) compared with a variable holding the wallet's address
+			x, y := be.X, be.Y
+			if _, isVar := f.ObjOf(x).(*types.Var); isVar {
+				x, y = y, x
+			}
+			addr, isVar := f.ObjOf(y).(*types.Var)
+			if !isVar || f.ObjOf(x) != nil || !ir.IsNamed(f.TypeOf(x), ir.PkgPath("types"), "Address") || !ir.IsNamed(f.TypeOf(y), ir.PkgPath("types"), "Address") {
+				continue
+			}
+			head, _, _ := enclosingRange(f, m)
+			if head == nil {
+				continue
+			}
+			tests = append(tests, test{m, x, head, addr})
+		}
+		for i := 0; i < len(tests); i++ {
+			for j := 0; j < len(tests); j++ {
+				a, b := tests[i], tests[j]
+				if i == j || a.head != b.head || a.addr != b.addr || a.node.Pos() >= b.node.Pos() || sameLvalue(f, a.operand, b.operand) {
+					continue
+				}
+				ra, _ := f.RootObj(a.operand)
+				rb, _ := f.RootObj(b.operand)
+				if ra == nil || ra != rb {
+					continue
+				}
+				n++
+				c.VisitGraph(f)
+				ob := c.Ob(f, "address-tests-independent", b.node.Pos())
+				good := true
+				for _, e := range a.node.Succs {
+					r := g.Reach([]*cfgx.Visit{cfgx.StartAfter(e, 0)}, func(m *cfgx.Node) bool { return m == a.head })
+					if _, ok := r[b.node]; !ok {
+						good = false
+					}
+				}
+				ob.Check(good, nil, "the test of %s at %s is reached only on one outcome of the test of %s at %s: an element that pays the wallet both ways yields one event instead of two, and the events no longer sum to the stored outputs", ir.ExprString(b.operand), c.P.Pos(b.node.Pos()), ir.ExprString(a.operand), c.P.Pos(a.node.Pos()))
+			}
+		}
+	}
+	if n == 0 {
+		ir.Fail("no pair of wallet-address tests on one element found in the event builders")
+	}
 }
